@@ -8,6 +8,9 @@ mod c07; mod c09; mod c10; mod c11; mod c15; mod c16; mod c17; mod c18; mod c19;
 
 use std::panic;
 
+/// domain scale: 1 in the quick tier, larger in the thorough tier (VERIF_SEARCH_SCALE)
+pub fn scale() -> u64 { std::env::var("VERIF_SEARCH_SCALE").ok().and_then(|s| s.parse().ok()).unwrap_or(1) }
+
 pub struct Ctx { pub only: Option<String>, pub results: Vec<(String, u64, u64, Option<String>)> }
 
 impl Ctx {
